@@ -583,6 +583,8 @@ void run_t(vf::Ctx& c)
     // file names: with / without an extension, several dots, hidden, and names that end like a temporary file would
     static char const* const names[] = {"run.chkpt", "run", "run.tmp", "a.b.c", ".hidden", "run.chkpt.tmp", "tmp", "run.chkpt~"};
     std::string const fname = names[t.pick(3) == 0 ? 1 + t.pick(7) : 0];
+    // a very long distribution name: the stream buffer is flushed in the middle of it (whatever writes the name sees the error)
+    if (!cfg.fn.dists.empty() && t.pick(3) == 1) { cfg.fn.dists[0].name = std::string(2000 + t.pick(3000), 'n'); c.label("very-long-distribution-name"); }
     if (small_engine)
     {
         using E = std::minstd_rand;
